@@ -331,6 +331,11 @@ impl<A: LoadableAsset + SeekableAsset> TapeImpl for Tap<A> {
         self.delay = 0;
         // Nothing to resume after rewind, next `play` starts from the first block
         self.prev_state = TapeState::Stop;
+        // Running deck continues from the first block too, nothing of the interrupted
+        // block (rest of its pilot, current byte) must be played after rewind
+        if self.state != TapeState::Stop {
+            self.state = TapeState::Play;
+        }
         self.asset.seek(SeekFrom::Start(0))?;
         self.tape_ended = false;
         Ok(())
